@@ -592,17 +592,18 @@ def part_d(report, tier):
     # a JSON record with a derived field (init=False, recomputed in __post_init__)
     def post(self):
         self.size = len(self.name)
-    Dc = dataclasses.make_dataclass("Derived", [("name", str), ("size", int, dataclasses.field(init=False, default=0))],
-                                    bases=(wf.JsonRecord,), namespace={"__post_init__": post})
-    for name in ("", "ab", 'é"'):
-        n += 1
-        rec = Dc(name)
-        out = observe(lambda: Dc.load(rec.save()))
-        if out[0] != "ok" or not same(out[1], rec):
-            bad += 1
-            report.violation({"part": "derived-classes", "format": "json", "kind": "roundtrip", "who": "init=False field"},
-                             "JSON record with a derived field (init=False): load(save(%r)) -> %r" % (rec, out),
-                             {"engine": "seqmc", "part": "derived-classes", "format": "json", "values": [name]})
+    for fmt in ("json", "csv", "tsv"):
+        Dc = dataclasses.make_dataclass("Derived", [("name", str), ("size", int, dataclasses.field(init=False, default=0))],
+                                        bases=(getattr(wf, BASES[fmt]),), namespace={"__post_init__": post})
+        for name in ("", "ab", 'é"'):
+            n += 1
+            rec = Dc(name)
+            out = observe(lambda: Dc.load(rec.save().rstrip("\r\n")))
+            if out[0] != "ok" or not same(out[1], rec):
+                bad += 1
+                report.violation({"part": "derived-classes", "format": fmt, "kind": "roundtrip", "who": "init=False field"},
+                                 "%s record with a derived field (init=False, set in __post_init__): load(save(%r)) -> %r" % (fmt, rec, out),
+                                 {"engine": "seqmc", "part": "derived-classes", "format": fmt, "values": [name]})
     # record classes of other legitimate shapes: fields with defaults (an empty / zero value must not turn into the
     # default), __slots__ dataclasses (no instance __dict__), a cached_property next to the fields (instance __dict__
     # holds more than the fields once it has been used)
